@@ -215,6 +215,16 @@ func Worker(arg string) int {
 		return out()
 	}
 	tr.Stdout, tr.Stderr = ioutil.Discard, ioutil.Discard
+	// every third task is interactive; the runner's stdin is a pipe that stays open and silent (a
+	// terminal nobody types on): neither a run nor a cancellation may wait for input that never comes
+	if pr, pw, perr := os.Pipe(); perr == nil {
+		defer pw.Close()
+		defer pr.Close()
+		tr.Stdin = pr
+		for i := 3; i <= sc.NR; i += 3 {
+			tasks[i].Interactive = true
+		}
+	}
 
 	holdMarker := func(i int) string {
 		switch sc.Hold[i-1] {
